@@ -21,6 +21,11 @@ var fileLog *fileLogger = nil // Current file logger instance if any
 var logLevel slog.LevelVar
 
 func OpenLogFileRead() (*os.File, error) {
+	if fileLog == nil {
+		// File logging is switched off (logging.file is empty): there is no file to read.
+		return nil, ErrNoLogFile
+	}
+
 	assertedPath, err := assertedpath.TryAssert(fileLog.Path())
 	if err != nil {
 		return nil, err
